@@ -6,7 +6,7 @@
 (* (Lex, then Classify).                                                   *)
 (*   Family "words":   the string w is a word; sources  w,  w-w,  w+w,     *)
 (*                     a-w,  we-3,  w 1  (juxtaposition),  0xw,  w-1,  w+9,    *)
-(*                     -w,  +w                                             *)
+(*                     -w,  +w,  -w^2                                      *)
 (*   Family "raw":     the string is the source text itself (blanks at     *)
 (*                     either end, lone & and |, stray quotes, comments)   *)
 (*   Family "strings": the string t is a string body; sources  quote(t)    *)
@@ -70,7 +70,8 @@ SourcesOf(w) ==
   ELSE IF Family = "words"
   THEN {w, w \o <<45>> \o w, w \o <<43>> \o w, <<97, 45>> \o w, w \o <<101, 45, 51>>, w \o <<32, 49>>, <<48, 120>> \o w,
         w \o <<45, 49>>, w \o <<43, 57>>,                                   \* w-1, w+9: a signed exponent after any head (1e, 1E, .5e, 1.E)
-        <<45>> \o w, <<43>> \o w}                                          \* -w, +w: a sign glued to the word is an operator, never part of it
+        <<45>> \o w, <<43>> \o w,                                          \* -w, +w: a sign glued to the word is an operator, never part of it
+        <<45>> \o w \o <<94, 50>>}                                         \* -w^2: ... and binds weaker than ^
   ELSE {QuoteText(w), <<QUOTE>> \o w \o <<QUOTE>>, <<120, 32, 61, 32>> \o QuoteText(w) \o <<59, 32, 120>>}
 Sources == SourcesOf(s)
 
@@ -79,7 +80,10 @@ Case(w, src) ==
       b == Build(src) IN
   [kind |-> "parse", check |-> "literal", src |-> src, bal |-> TRUE,
    \* inputs the documentation does not cover (integers beyond i64) are only required to return normally
-   class |-> IF b.class = "LEXERR" THEN "LEXERR" ELSE IF lx.unclaimed \/ b.class = "UNSPEC" THEN "UNSPEC" ELSE b.class,
+   \* ... except the SHAPE of the tree when the only open point is the value of such a literal ("WFU")
+   class |-> IF b.class = "LEXERR" THEN "LEXERR"
+             ELSE IF lx.unclaimed /\ ~lx.kf1 /\ b.class = "WF" THEN "WFU"
+             ELSE IF lx.unclaimed \/ b.class = "UNSPEC" THEN "UNSPEC" ELSE b.class,
    tree |-> JTree(b.tree), occ |-> IF b.class = "WF" THEN Occurrences(b.tree) ELSE <<>>,
    \* named deviation RustFloatWord (KNOWN_FINDINGS.txt, KF-1): the finding key is the word
    fk |-> IF lx.ok /\ lx.kf1 THEN LowerWord(w) ELSE <<>>]
